@@ -447,9 +447,36 @@ fn handler_txns(ldap: &syn::File) -> Result<Vec<(String, Vec<String>)>, String> 
                 txns.push(t.to_string());
             }
         }
+        // `idms` must not reach anything the scan does not follow: every use is such a call
+        let uses = path_uses(&f.block, "idms");
+        if uses != txns.len() {
+            return Err(format!("{name}: `idms` is used {uses} times but only {} times as the receiver of a transaction constructor", txns.len()));
+        }
         out.push((h.to_string(), txns));
     }
+    // do_op hands `idms` to the three handlers only
+    let f = find_fn(ldap, "LdapServer::do_op")?;
+    let handed = calls_in_block(&f.block).into_iter().filter(|(r, m, a)| r == "self" && handler_name(m).is_some() && a.first().map(|x| x == "idms").unwrap_or(false)).count();
+    let uses = path_uses(&f.block, "idms");
+    if uses != handed {
+        return Err(format!("do_op: `idms` is used {uses} times but handed to a handler {handed} times"));
+    }
     Ok(out)
+}
+
+/// Number of times the plain identifier `name` is used as an expression in a block.
+fn path_uses(b: &syn::Block, name: &str) -> usize {
+    struct U<'a>(&'a str, usize);
+    impl<'a, 'ast> Visit<'ast> for U<'a> {
+        fn visit_expr_path(&mut self, p: &'ast syn::ExprPath) {
+            if p.path.is_ident(self.0) {
+                self.1 += 1;
+            }
+        }
+    }
+    let mut u = U(name, 0);
+    u.visit_block(b);
+    u.1
 }
 
 fn txn_qs(server: &syn::File) -> Result<Vec<(String, String)>, String> {
@@ -562,6 +589,8 @@ struct Binds {
     app_memberof_linked_group: bool,
     bind_target_auth_ok: bool,
     auth_commit_noop: bool,
+    token_bind_validates_uat: bool,
+    token_bind_validates_apit: bool,
 }
 
 fn binds(repo: &str) -> Result<Binds, String> {
@@ -614,8 +643,30 @@ fn binds(repo: &str) -> Result<Binds, String> {
     if toks(&m.expr) != "self . validate_and_parse_token_to_identity_token (& lae . token , ct) ?" {
         return Err(format!("token_auth_ldap: matches on `{}`", toks(&m.expr)));
     }
+    let mut token_bind_validates_uat = false;
+    let mut token_bind_validates_apit = false;
     for arm in &m.arms {
         let pat = toks(&arm.pat);
+        {
+            // does the bind run the identity builder (account window, stored session) before it
+            // hands out the token?  `self.process_*_to_identity(..)?;` ahead of `LdapBoundToken {`
+            let b = toks(&arm.body);
+            let before = |call: &str| match (b.find(call), b.find("LdapBoundToken {")) {
+                (Some(c), Some(t)) => c < t,
+                _ => false,
+            };
+            if pat.starts_with("Token :: UserAuthToken (") {
+                token_bind_validates_uat = before("self . process_uat_to_identity (& uat , ct , Source :: Internal) ? ;");
+                if b.contains("process_uat_to_identity") && !token_bind_validates_uat {
+                    return Err("token_auth_ldap: UAT arm calls process_uat_to_identity in an unrecognised way".into());
+                }
+            } else if pat.starts_with("Token :: ApiToken (") {
+                token_bind_validates_apit = before("self . process_apit_to_identity (& apit , Source :: Internal , entry . clone () , ct) ? ;");
+                if b.contains("process_apit_to_identity") && !token_bind_validates_apit {
+                    return Err("token_auth_ldap: api token arm calls process_apit_to_identity in an unrecognised way".into());
+                }
+            }
+        }
         let path = if pat.starts_with("Token :: UserAuthToken (") {
             "tokenUat"
         } else if pat.starts_with("Token :: ApiToken (") {
@@ -689,6 +740,8 @@ fn binds(repo: &str) -> Result<Binds, String> {
         app_memberof_linked_group,
         bind_target_auth_ok: ok,
         auth_commit_noop,
+        token_bind_validates_uat,
+        token_bind_validates_apit,
     })
 }
 
@@ -1037,6 +1090,10 @@ fn tables(repo: &str, out: &str) -> Result<String, String> {
     s.push_str(&format!(
         "/-- `auth_ldap`, non-anonymous branch: `if !self.qs_read.d_info.d_ldap_allow_unix_pw_bind {{ .. return Ok(None); }}` before `auth_with_unix_pass` -/\ndef unixFlagGuard : Bool := {}\n",
         b(bi.unix_flag_guard)
+    ));
+    s.push_str(&format!(
+        "/-- `token_auth_ldap`: `self.process_uat_to_identity(&uat, ct, ..)?` / `self.process_apit_to_identity(&apit, .., entry.clone(), ct)?` run before the token is handed out -/\ndef tokenBindValidatesUat : Bool := {}\ndef tokenBindValidatesApit : Bool := {}\n",
+        b(bi.token_bind_validates_uat), b(bi.token_bind_validates_apit)
     ));
     s.push_str("/-- the `LdapSession` each successful bind path builds -/\ndef bindSession : BindPath → SessionKind\n");
     for (p, k, _) in &bi.sessions {
